@@ -310,10 +310,15 @@ def ctime(t):
     return '(PInt %s)' % cz(fr.numerator) if fr.denominator == 1 else '(PFlt %s)' % cqq(t)
 
 
-def cev(ev):
+def cev(ev, lat=None):
     if ev[0] == 'M':
         return '(WMsg %s)' % cmsg(ev[1])
-    return '(WBundle %s %s)' % (ctime(ev[1]), clist(ev[2], cmsg))
+    t = ev[1]
+    if t is not None and lat is not None and Fraction(t) == Fraction(lat):
+        t = '0'            # the model writes Server.latency as the constant [latency] = 0
+    elif t is not None and lat is not None and Fraction(t) == 0:
+        t = '-7'           # a literal 0 where the server latency (non-zero in this history) belongs: keep it different
+    return '(WBundle %s %s)' % (ctime(t), clist(ev[2], cmsg))
 
 
 def err_code(exc):
@@ -332,22 +337,40 @@ def cblocks(l):
 
 def coq_case(h, out):
     ops = clist([('(%s)' % coq_op(op, st)) for op, st in zip(h['ops'], out['steps'])])
-    steps = clist(['(%s, %s)' % (clist(st['ev'], cev), cz(err_code(st['exc']))) for st in out['steps']])
     f = out['final']
+    lat = f.get('latency')
+    steps = clist(['(%s, %s)' % (clist([cev(e, lat) for e in st['ev']]), cz(err_code(st['exc']))) for st in out['steps']])
     fin = '(%s, %s, %s)' % (cblocks(f['buf_blocks']), cblocks(f['cbus_blocks']), cblocks(f['abus_blocks']))
-    return '(%s, %s, %s, %s)' % (ops, steps, fin, cbool(h['cls'] == 'valid'))
+    objs = '(%s, %s, %s)' % (clist(f['node_ids'], oz), clist(f['bufnums'], oz), clist(f['bus_index'], oz))
+    return '(%s, %s, %s, %s, %s)' % (ops, steps, fin, objs, cbool(h['cls'] == 'valid'))
 
 
 BODY_DEFS = '''
+Definition case : Type := (list op * list (list wev * Z) * (list (Z*Z) * list (Z*Z) * list (Z*Z)) *
+                          (list (option Z) * list (option Z) * list (option Z)) * bool)%type.
 Definition blk_eqb (a b : list (Z * Z)) : bool :=
   (fix go (a b : list (Z * Z)) := match a, b with [] , [] => true | (x, y) :: t, (x', y') :: u => (x =? x') && (y =? y') && go t u | _, _ => false end) a b.
-Definition agrees (V : variant) (c : list op * list (list wev * Z) * (list (Z*Z) * list (Z*Z) * list (Z*Z)) * bool) : bool :=
-  let '(ops, obs, fin, _) := c in
+Definition oz_eqb (a b : option Z) : bool := match a, b with None, None => true | Some x, Some y => x =? y | _, _ => false end.
+Definition ozs_eqb (a b : list (option Z)) : bool :=
+  (fix go (a b : list (option Z)) := match a, b with [], [] => true | x :: t, y :: u => oz_eqb x y && go t u | _, _ => false end) a b.
+Definition pv_opt (v : pval) : option Z := match v with PInt z => Some z | _ => None end.
+Definition node_view (s : st) := map (fun n => match n with Some x => pv_opt (n_id x) | None => None end) (nodes s).
+Definition buf_view (s : st) := map (fun n => match n with Some x => pv_opt (b_num x) | None => None end) (bufs s).
+Definition bus_view (s : st) := map (fun n => match n with Some x => pv_opt (u_index x) | None => None end) (buses s).
+Definition agrees (V : variant) (c : case) : bool :=
+  let '(ops, obs, fin, objs, valid) := c in
   let '(r, s) := run V st0 ops in
   let '(fb, fc, fa) := fin in
-  steps_eqb r obs && blk_eqb (bblocks s) fb && blk_eqb (cblocks s) fc && blk_eqb (ablocks s) fa.
-Definition observed_conform (c : list op * list (list wev * Z) * (list (Z*Z) * list (Z*Z) * list (Z*Z)) * bool) : bool :=
-  let '(_, obs, _, valid) := c in negb valid || forallb (fun o => all_conform (fst o)) obs.
+  let '(on, ob, ou) := objs in
+  steps_eqb r obs && blk_eqb (bblocks s) fb && blk_eqb (cblocks s) fc && blk_eqb (ablocks s) fa &&
+  (* ids held by the client objects at the end (valid histories: a constructor that raises leaves no object) *)
+  (negb valid || (ozs_eqb (node_view s) on && ozs_eqb (buf_view s) ob && ozs_eqb (bus_view s) ou)).
+Definition observed_conform (c : case) : bool :=
+  let '(_, obs, _, _, valid) := c in negb valid || forallb (fun o => all_conform (fst o)) obs.
+Definition first_diff (V : variant) (c : case) : nat :=
+  let '(ops, obs, fin, objs, _) := c in let '(r, s) := run V st0 ops in
+  (fix go (i : nat) (m : list (list wev * option err)) (p : list (list wev * Z)) : nat :=
+    match m, p with (e, x) :: t, (e', cc) :: u => if wevs_eqb e e' && (err_code x =? cc) then go (S i) t u else i | _, _ => i end) O r obs.
 '''
 
 
@@ -393,6 +416,10 @@ def monitors(h, out, default_group=1):
     nbuf = 0
     nbus = 0
     node_ids = []               # creation index -> node id (None: constructor raised)
+    buf_frames = {}             # creation index -> frames the Buffer object holds
+    bus_chans = {}
+    cache = set()               # expected keys of Buffer._server_caches[server]
+    lat = out['final'].get('latency')
     bus_objs, bus_audio = {}, {}
     depth = 0
     pending = []                # messages expected at the outermost flush, for M5
@@ -424,18 +451,73 @@ def monitors(h, out, default_group=1):
             num = op.get('bufnum')
             if num is None:
                 num = [a[1] for a in st['alloc'] if a[0] == 'buf'][0]
+            buf_frames[nbuf] = op.get('frames') if o == 'b_new' else (op.get('size') if o == 'b_new_cue' else None)
             buf_objs[nbuf] = num; nbuf += 1
+            cache.add(num)
             created = [num] if op.get('alloc', True) else []
         elif o in ('b_new',):
             buf_objs[nbuf] = None; nbuf += 1; created = []
         elif o == 'b_consecutive' and st['exc'] is None:
-            base = [a[1] for a in st['alloc'] if a[0] == 'buf'][0]
+            base = op['bufnum'] if op.get('bufnum') is not None else [a[1] for a in st['alloc'] if a[0] == 'buf'][0]
             created = list(range(base, base + op['n']))
             for x in created:
+                buf_frames[nbuf] = op.get('frames')
                 buf_objs[nbuf] = x; nbuf += 1
+                cache.add(x)
         else:
             created = []
         emitted_here = msgs if depth == 0 and o not in ('bind_exit',) else []
+        if op.get('bufnum') is not None:
+            user_bufs.update(range(op['bufnum'], op['bufnum'] + op.get('n', 1)))
+        # argument ORDER (class 7): the fixed-position prefix the reference prescribes for this call
+        if depth == 0 and st['exc'] is None and msgs and o not in ('bind_exit',):
+            ids_ = {}
+            if 'b' in op and o.startswith('b_'):
+                ids_['buf'] = buf_objs.get(op['b']); ids_['frames'] = buf_frames.get(op['b'])
+            if o == 'b_copy_data':
+                ids_['dst'] = buf_objs.get(op['dst'])
+            if o in ('b_new', 'b_new_read', 'b_new_read_channel', 'b_new_cue'):
+                ids_['buf'] = op.get('bufnum') if op.get('bufnum') is not None else ([a[1] for a in st['alloc'] if a[0] == 'buf'] or [None])[0]
+            if 'u' in op and o.startswith('bus_'):
+                ids_['bus'] = bus_objs.get(op['u']); ids_['bus_channels'] = bus_chans.get(op['u'])
+            if o.startswith('n_move'):
+                ids_['node'] = node_ids[op['n']]
+                if o in ('n_move_before', 'n_move_after'):
+                    ids_['target'] = node_ids[op['t']]
+                else:
+                    ids_['group'] = default_group if op['t'] is None else node_ids[op['t']]
+            if o == 's_reorder':
+                t = op['target']
+                ids_['target'] = {'none': default_group, 'server': default_group, 'root': 0}.get(t['t'])
+                if t['t'] == 'int':
+                    ids_['target'] = t['x']
+                elif t['t'] == 'node':
+                    ids_['target'] = node_ids[t['i']]
+                ids_['nodes'] = [node_ids[k] for k in op['nodes']]
+            try:
+                exp = scproto.expected_prefix(op, ids_)
+            except KeyError:
+                exp = None
+            if exp is not None and None not in exp[1]:
+                m = msgs[0]
+                got = scproto.plain_values(m, len(exp[1]))
+                if m[0] != exp[0] or got != exp[1]:
+                    bad.append((None, 'op %d (%s): the reference prescribes %s %s ..., sent %s %s' % (i, o, exp[0], exp[1], m[0], got)))
+        # bundle times: a bind() block and release() use Server.latency, everything else is immediate
+        if lat is not None and st['exc'] is None:
+            for ev in st['ev']:
+                if ev[0] != 'B':
+                    continue
+                want = lat if (o in ('bind_exit', 'n_release')) else None
+                got_t = ev[1]
+                if (want is None) != (got_t is None) or (want is not None and Fraction(want) != Fraction(got_t)):
+                    bad.append((None, 'op %d (%s): bundle time %s, expected %s (Server.latency = %s)' % (i, o, got_t, want, lat)))
+        # server.addr after a block was left (normally or by an exception)
+        if o in ('bind_exit', 'bind_raise') and 'addr' in st:
+            left = depth - (1 if o == 'bind_exit' else op['k'])
+            want_addr = 'NetAddr' if left == 0 else 'BundleNetAddr'
+            if st['addr'] != want_addr:
+                bad.append((None, 'op %d (%s): server.addr is a %s after leaving the block (nesting depth now %d)' % (i, o, st['addr'], left)))
         # node objects: own ids, numeric targets, no id burnt
         nallocs = [a[1] for a in st['alloc'] if a[0] == 'node']
         if st['exc'] is None:
@@ -520,7 +602,8 @@ def monitors(h, out, default_group=1):
                 bad.append((None, 'op %d: second Bus.free() freed %s' % (i, st['free'])))
         if o == 'bus_new' and st['exc'] is None:
             a = [x for x in st['alloc'] if x[0] in ('cbus', 'abus')]
-            bus_objs[nbus] = a[0][1] if a else None
+            bus_objs[nbus] = a[0][1] if a else op.get('index')
+            bus_chans[nbus] = op['channels']
             bus_audio[nbus] = op['audio']
             nbus += 1
         elif o == 'bus_new':
@@ -542,8 +625,12 @@ def monitors(h, out, default_group=1):
                     if ['buf', b[0], b[1]] not in st['free']:
                         bad.append((None, 'op %d: Buffer.free() did not return block %s to the allocator' % (i, b)))
                     buf_blocks.discard(b)
+            cache.discard(num)
             buf_objs[op['b']] = None
+        if o == 'b_update_info' and buf_objs.get(op['b']) is not None:
+            cache.add(buf_objs[op['b']])
         if o == 'b_free_all':
+            cache.clear()
             want = sorted(x for b in buf_blocks for x in range(b[0], b[0] + b[1]))
             if depth == 0:
                 got = sorted(m[1][0][1] for m in msgs if m[0] == '/b_free')
@@ -589,6 +676,12 @@ def monitors(h, out, default_group=1):
                 bad.append((None, 'op %d: bind() left by an exception sent %s' % (i, st['ev'])))
         elif depth > 0 and st['ev']:
             bad.append((None, 'op %d (%s) inside bind() reached the wire immediately: %s' % (i, o, st['ev'])))
+    fin = out['final']
+    if 'addr_not_restored' in fin:
+        bad.append((None, 'after the history server.addr is still a %s' % fin['addr_not_restored']))
+    if 'cached' in fin and (sorted(cache) != fin['cached'] or fin.get('cached_none')):
+        bad.append((None, 'Buffer cache of the server holds %s (+%s None keys), the live buffer objects are %s' % (
+            fin['cached'], fin.get('cached_none'), sorted(cache))))
     return bad
 
 
@@ -653,6 +746,32 @@ FIXED_HISTORIES = [
         {'op': 'b_new', 'frames': 16, 'channels': 1, 'compl': None},
         {'op': 'b_consecutive', 'n': 3, 'frames': 8, 'channels': 1, 'compl': None},
         {'op': 'b_free_all'}]},
+    {'cls': 'valid', 'tags': ['fixed:free_all-empty'], 'ops': [{'op': 'b_free_all'}, {'op': 'b_new', 'frames': 8, 'channels': 1, 'compl': None}]},
+    {'cls': 'valid', 'tags': ['fixed:free_all-one'], 'latency': '1/4', 'ops': [
+        {'op': 'b_new', 'frames': 8, 'channels': 1, 'compl': None}, {'op': 'b_free_all'}, {'op': 'b_free_all'}]},
+    {'cls': 'valid', 'tags': ['fixed:free_all-blocks'], 'ops': [
+        {'op': 'b_consecutive', 'n': 2, 'frames': 8, 'channels': 1, 'compl': None},
+        {'op': 'b_new', 'frames': 8, 'channels': 1, 'compl': None},
+        {'op': 'b_consecutive', 'n': 1, 'frames': 8, 'channels': 1, 'compl': None},
+        {'op': 'b_consecutive', 'n': 4, 'frames': 0, 'channels': 1, 'compl': None},
+        {'op': 'bind_enter'}, {'op': 'b_free_all'}, {'op': 'bind_exit'}]},
+    {'cls': 'valid', 'tags': ['fixed:zeros'], 'latency': '1', 'ops': [
+        {'op': 'b_new', 'frames': 0, 'channels': 1, 'compl': None, 'bufnum': 0},
+        {'op': 'bus_new', 'audio': False, 'channels': 1, 'index': 0},
+        {'op': 'synth', 'ctor': 'init', 'def': 'default', 'args': {'v': 'l', 'x': [{'v': 'i', 'x': 0}, {'v': 'i', 'x': 0}, {'v': 's', 'x': 'gate'}, {'v': 'b', 'x': False},
+                                                                             {'v': 's', 'x': 'b'}, {'v': 'buf', 'i': 0}, {'v': 's', 'x': 'c'}, {'v': 'bus', 'i': 0},
+                                                                             {'v': 's', 'x': 'n'}, {'v': 'none'}, {'v': 's', 'x': 'e'}, {'v': 'l', 'x': []}]},
+         'target': {'t': 'int', 'x': 0}, 'action': 0, 'same_id': False},
+        {'op': 'n_map', 'n': 0, 'args': [{'v': 'i', 'x': 0}, {'v': 'bus', 'i': 0}, {'v': 'i', 'x': 1}, {'v': 'i', 'x': 0}]},
+        {'op': 'n_setn', 'n': 0, 'args': [{'v': 'i', 'x': 0}, {'v': 'l', 'x': []}, {'v': 'i', 'x': 1}, {'v': 'i', 'x': 0}]},
+        {'op': 'n_release', 'n': 0, 'time': {'v': 'i', 'x': 0}},
+        {'op': 'n_release', 'n': 0, 'time': {'v': 'f', 'x': '0'}},
+        {'op': 'b_read', 'b': 0, 'path': 'c.wav', 'fstart': 0, 'frames': 0, 'bstart': 0, 'leave_open': False},
+        {'op': 'b_get', 'b': 0, 'index': 0},
+        {'op': 'bus_set', 'u': 0, 'values': [{'v': 'i', 'x': 0}]},
+        {'op': 'bus_getn', 'u': 0, 'count': None},
+        {'op': 'bind_enter'}, {'op': 'n_run', 'n': 0, 'flag': {'v': 'b', 'x': False}}, {'op': 'bind_exit'},
+        {'op': 'b_free', 'b': 0, 'compl': None}, {'op': 'bus_free', 'u': 0}]},
     {'cls': 'valid', 'tags': ['fixed:F15'], 'ops': [
         {'op': 'b_new', 'frames': 16, 'channels': 1, 'compl': None},
         {'op': 'b_free', 'b': 0, 'compl': None},
@@ -781,6 +900,25 @@ def refs_ok(ops):
     return True
 
 
+def diagnose(ctx, h, o):
+    """first step on which the verified model (run repaired) and the observation differ, with what the model says"""
+    import re
+    txt = HEADER + BODY_DEFS + '''
+Definition c : case := %s.
+Eval vm_compute in first_diff repaired c.
+Eval vm_compute in let '(ops, obs, fin, objs, _) := c in let '(r, s) := run repaired st0 ops in
+  (nth_error r (first_diff repaired c), final_view s, (node_view s, buf_view s, bus_view s)).
+''' % coq_case(h, o)
+    rc, out = ctx.coq('diag', txt)
+    m = re.search(r'=\s*(\d+)', out)
+    if rc != 0 or not m:
+        return None, out[-800:]
+    i = int(m.group(1))
+    rest = out[m.end():]
+    k = rest.find('=')
+    return i, ' '.join(rest[k + 1:].split())[:1500]
+
+
 def classify(texts):
     for sig in (SIG_F14, SIG_F15, SIG_CUE, SIG_DICT):
         if any(s == sig for s, _ in texts):
@@ -795,10 +933,11 @@ def correspond(ctx):
     nv, nm = ctx.n(500, 5000), ctx.n(250, 2500)
     hs += [c17_gen.gen_history(rng, 'valid') for _ in range(nv)]
     hs += [c17_gen.gen_history(rng, 'misuse') for _ in range(nm)]
-    res = ctx.impl('c17_hist', {'histories': [h['ops'] for h in hs]}, timeout=900)
+    res = ctx.impl('c17_hist', {'histories': [h['ops'] for h in hs], 'latencies': [h.get('latency') for h in hs]}, timeout=900)
     outs = res['out']
     SD_NBYTES[0] = res['sd_nbytes']
-    flat = ctx.impl('c17_hist', {'histories': [strip_binds(h['ops']) for h in hs if h['cls'] == 'valid']}, timeout=900)['out']
+    flat = ctx.impl('c17_hist', {'histories': [strip_binds(h['ops']) for h in hs if h['cls'] == 'valid'],
+                                 'latencies': [h.get('latency') for h in hs if h['cls'] == 'valid']}, timeout=900)['out']
     flat_of = {}
     k = 0
     for i, h in enumerate(hs):
@@ -828,8 +967,7 @@ def correspond(ctx):
     # how many of the valid histories lie inside the domain of the theorems (wf_ops of proofs/C17_run.v)
     vitems = [it for it, i in zip(items, idx) if hs[i]['cls'] == 'valid']
     vidx = [i for i in idx if hs[i]['cls'] == 'valid']
-    dbody = ('\nEval vm_compute in bad_idx (fun c : list op * list (list wev * Z) * (list (Z*Z) * list (Z*Z) * list (Z*Z)) * bool => '
-             'wf_ops 3 st0 (fst (fst (fst c)))) cases.')
+    dbody = BODY_DEFS + '\nEval vm_compute in bad_idx (fun c : case => wf_ops 3 st0 (fst (fst (fst (fst c))))) cases.'
     outside, derrs = fw.check_shards(ctx, 'dom', HEADER, vitems, dbody, shard=60)
     c.count('domain:valid-histories-inside-wf_ops', len(vitems) - len(outside))
     c.count('domain:valid-histories-outside-wf_ops', len(outside))
@@ -862,11 +1000,25 @@ def correspond(ctx):
                 'the implementation violates the property on this history (and differs from the repaired model): ' + '; '.join(t for _, t in texts[:3]),
                 signature=sig, found_input=True,
                 theorem='free_emits_each_owned_id_once_and_returns_it' if sig in (SIG_F14, SIG_F15) else 'emitted_conform',
-                replay={'history': h['ops'], 'observed': [[st['ev'], st['exc']] for st in o['steps']], 'violations': [t for _, t in texts],
+                replay={'history': h['ops'], 'latency': h.get('latency'), 'observed': [[st['ev'], st['exc']] for st in o['steps']], 'violations': [t for _, t in texts],
                         'how': 'SC3_MODE=nrt PYTHONPATH=/repo:/verif/harness /venv/bin/python harness/impl/c17_hist.py <in.json> <out.json> with {"histories": [history]}'}))
+        elif h['cls'] == 'valid':
+            # the repaired model is the verified reference (emitted_conform, ids_only_allocated, create / free / bind theorems):
+            # a valid history on which the implementation departs from it is a concrete failing input
+            di, dtxt = diagnose(ctx, h, o)
+            where = ''
+            if di is not None and di < len(h['ops']):
+                where = 'op %d %s: observed %s ; the verified model says %s' % (di, json.dumps(h['ops'][di]), json.dumps(o['steps'][di]['ev'])[:500], dtxt[:700])
+            elif di is not None:
+                where = 'all steps agree, the final client state differs: observed %s ; model (blocks, object ids) %s' % (json.dumps(o['final'])[:400], dtxt[:500])
+            c.failures.append(Failure('correspondence',
+                                      'the implementation departs from the verified reference model on a valid history: ' + where,
+                                      found_input=True, theorem='emitted_conform / create_emits_own_id / free_emits_each_owned_id_once_and_returns_it',
+                                      replay={'history': h['ops'], 'latency': h.get('latency'), 'first_difference_at_op': di,
+                                              'observed': [[st['ev'], st['exc']] for st in o['steps']], 'model_says': dtxt}))
         else:
             c.failures.append(Failure('correspondence', 'model (Proto.run repaired) and implementation disagree on a %s history' % h['cls'],
-                                      replay={'history': h['ops'], 'observed': [[st['ev'], st['exc']] for st in o['steps']]}))
+                                      replay={'history': h['ops'], 'latency': h.get('latency'), 'observed': [[st['ev'], st['exc']] for st in o['steps']]}))
     # independent monitors on every valid history, even when the model agrees
     for i, (h, o) in enumerate(zip(hs, outs)):
         if h['cls'] != 'valid' or o.get('crash') or i in [idx[b] for b in bad]:
@@ -886,8 +1038,9 @@ def search(ctx, failures):
     rng = ctx.rng
     hs = [dict(h) for h in FIXED_HISTORIES] + load_corpus() + [c17_gen.gen_history(rng, 'valid') for _ in range(ctx.n(800, 8000))]
     hs = [h for h in hs if h['cls'] == 'valid']
-    outs = ctx.impl('c17_hist', {'histories': [h['ops'] for h in hs]}, timeout=900)['out']
-    flat = ctx.impl('c17_hist', {'histories': [strip_binds(h['ops']) for h in hs]}, timeout=900)['out']
+    lats = [h.get('latency') for h in hs]
+    outs = ctx.impl('c17_hist', {'histories': [h['ops'] for h in hs], 'latencies': lats}, timeout=900)['out']
+    flat = ctx.impl('c17_hist', {'histories': [strip_binds(h['ops']) for h in hs], 'latencies': lats}, timeout=900)['out']
     found, seen = [], set()
     for h, o, f in zip(hs, outs, flat):
         if o.get('crash'):
@@ -901,13 +1054,13 @@ def search(ctx, failures):
         seen.add(key)
 
         def still_bad(hh):
-            oo = ctx.impl('c17_hist', {'histories': [hh['ops'], strip_binds(hh['ops'])]}, timeout=120)['out']
+            oo = ctx.impl('c17_hist', {'histories': [hh['ops'], strip_binds(hh['ops'])], 'latencies': [hh.get('latency')] * 2}, timeout=120)['out']
             if oo[0].get('crash') or oo[1].get('crash'):
                 return False
             tt = monitors(hh, oo[0]) + bind_metamorphic(hh, oo[0], oo[1])
             return bool(tt) and (classify(tt) or tt[0][1].split(':')[1][:40]) == key
         hmin = shrink(ctx, h, still_bad) if len(h['ops']) > 4 else h
-        oo = ctx.impl('c17_hist', {'histories': [hmin['ops'], strip_binds(hmin['ops'])]}, timeout=120)['out']
+        oo = ctx.impl('c17_hist', {'histories': [hmin['ops'], strip_binds(hmin['ops'])], 'latencies': [hmin.get('latency')] * 2}, timeout=120)['out']
         tt = monitors(hmin, oo[0]) + bind_metamorphic(hmin, oo[0], oo[1])
         if not tt:
             continue
